@@ -158,6 +158,110 @@ CHECKS["C10"] = dict(
     technique="Coq proof over Q model with random-source oracles + in-Coq correspondence",
     design="7/C10")
 
+CHECKS["C03"] = dict(
+    text=("Theorems (Props/C03.v): a layer state machine (Init / optimizer Update followed by the variable's "
+          "constraint / Restore of an earlier state) keeps every constrained variable feasible after ANY history "
+          "(reusing the constraint theorems of C01, C04, C06); for feasible weights and the wiring the premade "
+          "builders produce (calibrator direction -> increasing lattice/linear dimension, calibrator range -> lattice "
+          "input range) calibrated lattice (hypercube and simplex), calibrated linear and ensembles (average or "
+          "linear combination, optional output calibration) are monotone for every pair of non-missing points, in "
+          "or out of range, ordered along categorical pairs, and bounded for all inputs incl. missing; refuted "
+          "witness for known finding D32 (weighted average with all-zero weights). On every run real tfl.premade "
+          "models run hostile training histories; predicates are evaluated after every op, weights are extracted "
+          "and Coq evaluates the composed model against model(x) and decides the wiring hypotheses on the built "
+          "structure."),
+    note="Models: Model/Premade.v over PWLEval/CategoricalEval/LatticeInterp/LinearEval. Keras optimizer re-applying "
+         "variable.constraint, constructors not applying it and set_weights copying verbatim are observed runtime "
+         "behaviour, not modelled; KFL-parameterised members, RTL internals and Crystals prefitting are covered by "
+         "implementation-side histories only; unimodality/dominance/joint constraints of premade lattices are "
+         "exercised, not proved. Open known finding D32.",
+    technique="Coq proof (state-machine invariant + composition of monotone maps) + in-Coq correspondence with premade models under training histories",
+    design="7/C03")
+CHECKS["C07"] = dict(
+    text=("Theorems (Props/C07.v) about the Gallina model of KroneckerFactoredLattice evaluation, "
+          "finalize_weight_constraints, finalize_scale_constraints and the two constraint objects, for every lattice "
+          "size >= 2, dims, units, terms, rational kernel and scale and every history of kernel.constraint / "
+          "scale.constraint / finalize_constraints containing both: the output is non-decreasing along every "
+          "monotone input and within [output_min, output_max] for in-range (or clipped) inputs, for every sign "
+          "pattern of scale incl. zeros; the scale constraint never flips a sign; idempotence, order irrelevance; "
+          "refuted parameter-level idempotence. Each history is replayed by the model and kernel, scale and outputs "
+          "are compared in Coq with the float64 layer on every run."),
+    note="Model: Model/KFL.v. tf.pow(x, 1/dims) is an oracle in the theorems (any upper approximation of the root) "
+         "and a truncated Newton iteration when executed. An optimizer changing scale after the kernel was constrained "
+         "with no further constraint application is outside the statement.",
+    technique="Coq proof over Q model with a root oracle + in-Coq correspondence with the layer's constraints",
+    design="7/C07")
+CHECKS["C11"] = dict(
+    text=("Theorems (Props/C11.v, REGENERATED from /repo's source on every run by a Python-ast translator): for each "
+          "of the classes with get_config found in tensorflow_lattice/python, get_config's keys cover and are "
+          "constructor parameters, every attribute read is set by __init__, no parameter is dropped, "
+          "from_config(get_config()) restores the constructor state and get_config is stable (generic theorems in "
+          "Proofs/ConfigRoundTrip.v instantiated per class; the guarded Linear case and refuted dropped parameters "
+          "are named as such); custom-object registry covers the layers; seed-determined RTL / random-ensemble "
+          "structure is a function of config and seed. On every run real objects are rebuilt via from_config and "
+          "JSON, configs/attributes/variables/outputs compared, h5 save/load after training steps, and observed "
+          "configs compared in Coq with the model's."),
+    note="Translator harness/translators/gen_config.py (fail-closed) is trusted; wrappers without a concrete model "
+         "(canonicalisers, keras.*.get/serialize) are Section hypotheses (idempotent, serialize/deserialize inverse), "
+         "exercised by the executed round trips; Keras/HDF5 machinery is observed, not modelled. Open known findings "
+         "D23, D31.",
+    technique="Coq proof over a model regenerated from source by a translator + executed round trips compared in Coq",
+    design="7/C11")
+CHECKS["C12"] = dict(
+    text=("Theorems (Props/C12.v) about Gallina models of the six assert_constraints functions (one conjunct per "
+          "tf.Assert, the code's slicing, reductions and comparisons): for Lattice (monotonicity, Edgeworth, "
+          "trapezoid, monotonic/range dominance, joint monotonicity, bounds), RTL, PWLCalibration, Linear, "
+          "CategoricalCalibration and KroneckerFactoredLattice the assert fails whenever ANY covered inequality "
+          "instance (every vertex, pair, square, unit) is violated by more than eps and passes when all hold up to "
+          "eps - the covered constraints being stated independently of the assert's slicing; eps=0 acceptance equals "
+          "C01 feasibility. Eager assert_constraints on real float64 layers with assigned weights (each inequality "
+          "instance x unit injected) is compared in Coq with the model's boolean on every run."),
+    note="Model: Model/Asserts.v. L2 norm compared by squares. Not asserted by the code hence not covered: "
+         "unimodalities, PWL convexity, cyclic closure, KFL bias.",
+    technique="Coq proof (assert == independently stated feasibility) + in-Coq correspondence with eager assert_constraints",
+    design="7/C12")
+CHECKS["C14"] = dict(
+    text=("Theorems (Props/C14.v), all shapes/parameters/inputs: KroneckerFactoredLattice output = hypercube Lattice "
+          "output on the dense kernel bias + mean_t scale_t * outer product (in-range or clipped inputs); "
+          "pwl_calibration_fn = PWLCalibration layer holding the derived keypoints and kernel (incl. missing); "
+          "cdf_fn = CDF layer for mean / none reductions; ParallelCombination = column-wise calibrators (all input "
+          "forms); Aggregation = per-example mean over ragged rows; RTL = gather of its recorded indices into its "
+          "lattices. On every run the paired public callables are run on identical inputs and both sides are "
+          "compared in Coq with both models."),
+    note="Models: Model/Representations.v over KFL, LatticeInterp, PWLEval, CondPWL, CDF, RTLStructure. softmax/sigmoid "
+         "are oracles; the wrapped model of Aggregation is assumed row-wise (hypothesis); sigmoid CDF pairs and "
+         "kronecker-factored RTL are compared implementation vs implementation only.",
+    technique="Coq proof (two models proved equal) + in-Coq correspondence with both public callables",
+    design="7/C14")
+CHECKS["C15"] = dict(
+    text=("Theorems (Props/C15.v) for the Gallina models of pwl_calibration_fn and cdf_fn / CDF.call, for every "
+          "parameter tensor, units, keypoint count and broadcast form and ANY softmax / sigmoid / exp / log oracle "
+          "meeting the stated hypotheses (softmax entries >= 0 summing to 1, zeros allowed; sigmoid in [0,1], "
+          "non-decreasing): outputs in [keypoint_output_min, keypoint_output_max], non-decreasing when increasing, "
+          "clamps reached at the end keypoints, cyclic ends equal, missing input -> missing output, accepted "
+          "parameter sizes (one documented form refuted: rejected by the code when units > 1); CDF outputs in [0,1] "
+          "([eps,1+eps] geometric) and non-decreasing for non-negative scaling; NonNeg constraint. Outputs and "
+          "derived parameters compared in Coq with the real functions on every run."),
+    note="Models: Model/CondPWL.v, Model/CDF.v; oracle values are tables captured from TensorFlow, hypotheses "
+         "checked numerically on every captured value. Float saturation of softmax outside the model (|p|>3 "
+         "predicate-only).",
+    technique="Coq proof over Q model with softmax/sigmoid oracles + in-Coq correspondence",
+    design="7/C15")
+CHECKS["C16"] = dict(
+    text=("Theorems (Props/C16.v) about Gallina functions REGENERATED from /repo's utils.py on every run by a "
+          "Python-ast translator, over a model of the Python value universe: every canonicalize_* helper is total "
+          "(value or ValueError, never another exception; boundary refuted where the code does raise otherwise), "
+          "idempotent, maps every synonymous spelling (any case, ints, bools) to the same canonical value, returns "
+          "values in the canonical range, trusts as tuples. The accept/reject decision of the verify_hyperparameters "
+          "functions and layer constructors (Model/Verify.v) is tied by correspondence: structured samples of the "
+          "constructor cross product are run against real constructors, build, projection, regularizer and first "
+          "call (ValueError up front, or accepted and finite), synonym twins must behave identically."),
+    note="Translator harness/translators/gen_canon.py and Model/PyVal.v (Python semantics) are trusted. 'accepted => "
+         "total and finite' is tested on random dyadic weights, not proved; exceptions from Python typing are "
+         "invisible to the typed Verify.v model and found by the constructor runs. Open known findings D41-D51.",
+    technique="Coq proof over functions translated from source + in-Coq correspondence of accept/reject decisions",
+    design="7/C16")
+
 NOT_YET = {}
 
 
